@@ -213,8 +213,8 @@ func (c *conformer) run(env *core.Env) int {
 			bin = env.Verif
 		}
 		got := core.Spawn{Bin: bin}.Run(r)
-		a := fmt.Sprintf("exit=%d\nout=%s\nerr=%s", cs.Got.Exit, blankTS(cs.Got.Out), blankTS(cs.Got.Err))
-		b := fmt.Sprintf("exit=%d\nout=%s\nerr=%s", got.Exit, blankTS(got.Out), blankTS(got.Err))
+		a := fmt.Sprintf("exit=%d\nout=%s\nerr=%s", cs.Got.Exit, blankTS(cs.Got.Out), sortParts(blankTS(cs.Got.Err)))
+		b := fmt.Sprintf("exit=%d\nout=%s\nerr=%s", got.Exit, blankTS(got.Out), sortParts(blankTS(got.Err)))
 		a = strings.ReplaceAll(a, cs.Root, "<ROOT>")
 		b = strings.ReplaceAll(b, root, "<ROOT>")
 		if a != b {
@@ -230,4 +230,73 @@ func (c *conformer) run(env *core.Env) int {
 		env.HarnessError("conformance: %d of %d traces differ between the in-process server and spawned binaries; first:\n%s", bad.Load(), len(c.cases), first)
 	}
 	return len(c.cases)
+}
+
+var idRe = regexp.MustCompile(`\b[A-Z2-7]{6}\b`)
+
+// sortParts orders the "; "-separated parts of each stderr line: ergo joins validation problems in map
+// iteration order, which differs between two runs of the same command (not a property of any check here).
+func sortParts(s string) string {
+	lines := strings.Split(s, "\n")
+	for i, ln := range lines {
+		parts := strings.Split(ln, "; ")
+		sort.Strings(parts)
+		lines[i] = strings.Join(parts, "; ")
+	}
+	return strings.Join(lines, "\n")
+}
+
+// canonLogKey is the no-abstraction state key: the whole normalised history.
+func canonLogKey(w *core.Worker, st core.Store) (string, interface{}) {
+	return core.CanonLog(st.Log()) + "|" + st.LogName(), nil
+}
+
+// graphKey is the canonical labelled graph of a store as a reader sees it: items in creation order,
+// each with kind, state, claimed?, epic (as index), deps (as indices); plus the number of tombstones in the
+// log. Titles, bodies, ids, timestamps and history are dropped: the commands explored with this key
+// (sequence/set epic/state/prune/claim/new) take their decisions from exactly these fields.
+func graphKey(w *core.Worker, st core.Store) (string, interface{}) {
+	obs := core.ObserveW(w, w.Proj)
+	if obs.Fail != "" {
+		return "FAIL:" + core.CanonLog(st.Log()), obs
+	}
+	type row struct {
+		id, created string
+	}
+	var rows []row
+	for id, sh := range obs.Shows {
+		rows = append(rows, row{id, sh.CreatedAt})
+	}
+	sort.Slice(rows, func(i, j int) bool {
+		if rows[i].created != rows[j].created {
+			return core.TSLess(rows[i].created, rows[j].created)
+		}
+		return rows[i].id < rows[j].id
+	})
+	idx := map[string]int{}
+	for i, r := range rows {
+		idx[r.id] = i
+	}
+	ref := func(id string) string {
+		if id == "" {
+			return "-"
+		}
+		if i, ok := idx[id]; ok {
+			return fmt.Sprint(i)
+		}
+		return "DANGLING"
+	}
+	var sb strings.Builder
+	for i, r := range rows {
+		sh := obs.Shows[r.id]
+		it, _ := obs.Item(r.id)
+		var deps []string
+		for _, d := range sh.Deps {
+			deps = append(deps, ref(d))
+		}
+		sort.Strings(deps)
+		fmt.Fprintf(&sb, "%d:%s,%s,c=%v,e=%s,d=%v,r=%d;", i, it.Kind, sh.State, sh.ClaimedBy != "", ref(sh.EpicID), deps, len(sh.Results))
+	}
+	fmt.Fprintf(&sb, "tomb=%d", strings.Count(string(st.Log()), `"type":"tombstone"`))
+	return sb.String(), obs
 }
